@@ -84,6 +84,7 @@ theorem deliver_commitStep (env : Env) (c : Chain) (now : UInt64) (m : Msg) :
     | updateClient chain h root signer ok => obtain ⟨cls, he⟩ := updateClient_ok hh; subst he; exact .same rfl
     | createClient chain cl => simp only [handle] at hh; injection hh with hh; subst hh; exact .same rfl
     | registerRelayer r => simp only [handle] at hh; injection hh with hh; subst hh; exact .same rfl
+    | restart => simp only [handle] at hh; injection hh with hh; subst hh; exact .same rfl
   · rw [hd]; exact .same rfl
 
 theorem deliver_name (env : Env) (c : Chain) (now : UInt64) (m : Msg) : (deliver env c now m).1.name = c.name := by
@@ -96,6 +97,7 @@ theorem deliver_name (env : Env) (c : Chain) (now : UInt64) (m : Msg) : (deliver
     | updateClient chain h root signer ok => obtain ⟨cls, he⟩ := updateClient_ok hh; subst he; rfl
     | createClient chain cl => simp only [handle] at hh; injection hh with hh; subst hh; rfl
     | registerRelayer r => simp only [handle] at hh; injection hh with hh; subst hh; rfl
+    | restart => simp only [handle] at hh; injection hh with hh; subst hh; rfl
   · rw [hd]
 
 theorem commitsOwn_deliver (env : Env) (c : Chain) (now : UInt64) (m : Msg) (h : CommitsOwn env c) :
@@ -197,6 +199,7 @@ theorem deliver_acks (env : Env) (c : Chain) (now : UInt64) (m : Msg) :
     | updateClient chain h root signer ok => obtain ⟨cls, he⟩ := updateClient_ok hh; subst he; exact Or.inl rfl
     | createClient chain cl => simp only [handle] at hh; injection hh with hh; subst hh; exact Or.inl rfl
     | registerRelayer r => simp only [handle] at hh; injection hh with hh; subst hh; exact Or.inl rfl
+    | restart => simp only [handle] at hh; injection hh with hh; subst hh; exact Or.inl rfl
   · rw [hd]; exact Or.inl rfl
 
 theorem deliver_ack_kept (env : Env) (hash : HashOk env) (c : Chain) (hinv : CommitsOwn env c) (now : UInt64) (m : Msg)
@@ -348,6 +351,7 @@ theorem ack_accept_consumes (env : Env) (hash : HashOk env) (c : Chain) (now : U
   | updateClient chain h root signer ok => simp [ackKeyOf] at hk
   | createClient chain cl => simp [ackKeyOf] at hk
   | registerRelayer r => simp [ackKeyOf] at hk
+  | restart => simp [ackKeyOf] at hk
 
 /-- a delivery that does not create the commitment of `k` cannot make it appear -/
 theorem no_create_stays_absent (env : Env) (c : Chain) (now : UInt64) (m : Msg) (k : Bytes)
@@ -480,6 +484,7 @@ theorem deliver_onAckCount (env : Env) (c : Chain) (now : UInt64) (m : Msg) (k :
     | updateClient chain h root signer ok => obtain ⟨cls, he⟩ := updateClient_ok hh; subst he; left; rfl
     | createClient chain cl => simp only [handle] at hh; injection hh with hh; subst hh; left; rfl
     | registerRelayer r => simp only [handle] at hh; injection hh with hh; subst hh; left; rfl
+    | restart => simp only [handle] at hh; injection hh with hh; subst hh; left; rfl
   · rw [hd]; left; rfl
 
 /-- over a history without re-creation of the commitment, `OnAcknowledgePacket` (and with it the status write and the
